@@ -352,7 +352,12 @@ func (s *LevelDBStore) DeleteRange(min, max uint64) error {
 		if err := iterator.Error(); err != nil {
 			return err
 		}
-		batch.Delete(iterator.Key())
+		// Log entries and the stable store share one keyspace: a range of log
+		// indexes which is large enough also spans the stablestore- keys,
+		// which must never be deleted along with log entries.
+		if !bytes.HasPrefix(iterator.Key(), []byte("stablestore-")) {
+			batch.Delete(iterator.Key())
+		}
 		available = iterator.Next()
 	}
 	return s.db.Write(&batch, nil)
